@@ -109,6 +109,10 @@ func TestC20(t *testing.T) {
 	}
 	r.Parallel(t, "bare-priority", r.Cfg.pick(400, 8000)/scale, bare(false))
 	// the same, but every run stops a v1 discipline (mostly Simple) right after its constructor
+	// v1: inputs removed while their items are being handled, graceful end, results read at once
+	r.Parallel(t, "bare-v1-remove-with-items-in-flight", r.Cfg.pick(200, 3000)/scale, func(t *testing.T, idx int, rng *rand.Rand) {
+		bareCase(r, genPrioBareRemoveScenario(rng))
+	})
 	r.Parallel(t, "bare-v1-stop-right-after-construction", r.Cfg.pick(250, 4000)/scale, bare(true))
 	// the pure helpers called from several goroutines at once with the same (read-only) arguments
 	r.Parallel(t, "concurrent-pure-functions", r.Cfg.pick(150, 2000)/scale, func(t *testing.T, idx int, rng *rand.Rand) {
